@@ -25,7 +25,8 @@ RULE = ("(1) pairs of Magnitudes from a value grid (either sign, arrays, zero wh
         "compound units mixing units of one dimension; augmented assignments (+= -= *= /=) on Magnitude and Quantity; operands "
         "whose error exceeds the value (quotients judged for db<b and b<db<=2b); (6) sums/differences of logarithmic levels in "
         "one unit (sum clause + non-negativity only); after every + - * / neg ** on fresh quantities the RESULT is given an "
-        "uncertainty (abse()/rele()) and the operands' uncertainties are re-read; exactly 0 on the left of + and -. non-trivial = at least one operand carries an error and (a negative "
+        "uncertainty (abse()/rele()) and the operands' uncertainties are re-read; exactly 0 on the left of + and -; constructors "
+        "with abse/rele and a unit string carrying an explicit number ('2*m', '1e3*g', 'km*h-1*0.5'). non-trivial = at least one operand carries an error and (a negative "
         "value/factor/exponent, an array, or different units) ; distinct = canonical JSON of the input")
 ASSUMPTIONS = [
     "operand errors are non-negative (abse >= 0, rele >= 0) as the property presupposes; magnitudes are floats, float "
@@ -463,6 +464,10 @@ QTY_CORPUS = [
     {"op": "add", "aug": True, "lv": [2.0, 3.0, 4.0], "lu": U.U(("", "m", 1, 1)), "le": 0.01, "rv": [10.0, 20.0, 30.0], "ru": U.U(("c", "m", 1, 1)), "re": 0.5},
     {"op": "sub", "aug": True, "lv": [2.0, 3.0], "lu": U.U(("", "m", 1, 1)), "rv": 1.0, "ru": U.U(("d", "m", 1, 1)), "re": 0.2},
     {"op": "add", "aug": True, "lv": 2.0, "lu": U.U(("", "s", 1, 1)), "le": 0.1, "rv": 3.0, "ru": U.U(("", "min", 1, 1)), "re": 0.5},
+    # unit strings with an explicit numerical factor: an exact number scales value and error
+    {"op": "new", "lv": 3.0, "lu": U.U(("", "m", 1, 1)), "le": 0.1, "k": 2},
+    {"op": "new", "lv": [1.0, 2.0], "lu": U.U(("", "g", 1, 1)), "lrele": 10, "k": 1e3},
+    {"op": "new", "lv": 12.0, "lu": U.U(("c", "m", 1, 1)), "le": 0.2, "k": 0.5, "klast": True},
     # the unit given as an uncertain quantity
     {"op": "newq", "lv": 4.0, "lu": [], "le": 0.2, "rv": 2.5, "ru": U.U(("c", "m", 1, 1)), "re": 0.1},
     {"op": "newq", "lv": -3.0, "lu": [], "rv": 2.5, "ru": U.U(("k", "m", 1, 1)), "re": 0.1},
@@ -479,7 +484,7 @@ def qty_stream(ctx, count):
     while len(cases) < count + len(QTY_CORPUS):
         c = U.gen_case(ctx.rng)
         if c.get("lu") is not None and c["op"] != "pow_pair" or True:
-            if c.get("lu") is not None and c.get("le") is None:
+            if c.get("lu") is not None and c.get("le") is None and c.get("lrele") is None:
                 c["le"] = U.gen_err(ctx.rng, c["lv"], p=1.0)
             if c.get("ru") is not None and "rv" in c and c.get("re") is None and ctx.rng.random() < 0.7:
                 c["re"] = U.gen_err(ctx.rng, c["rv"], p=1.0)
@@ -501,6 +506,9 @@ def judge_qty(ctx, c, req, imp, ans, stream="qty"):
     if "ok" not in ans:
         ctx.disagreement(stream, c, str(ans))
         return
+    if imp == "skip":
+        ctx.count(stream + ".unit-text-not-parsed-as-intended")
+        return
     if not U.exponent_judgeable(ctx, c, req):
         return
     mod = ans["ok"]["model"]
@@ -517,7 +525,7 @@ def judge_qty(ctx, c, req, imp, ans, stream="qty"):
     if U.out_of_range(imp, mod, None, req["env"]):
         ctx.count(stream + ".out-of-float-range")
         return
-    has_err = c.get("le") is not None or c.get("re") is not None
+    has_err = c.get("le") is not None or c.get("re") is not None or c.get("lrele") is not None
     ctx.case(json.dumps(c, sort_keys=True, default=str), has_err and U.nontrivial(c),
              {"quantity_case": U.describe(c), "op": c["op"], "abse": None if imp == "err" else imp["e"]})
     spec = ans["ok"]["spec"]
